@@ -54,21 +54,22 @@ func validateTmpl(t *Tmpl) error {
 	if strings.Contains(t.SQL, "@") {
 		return fmt.Errorf("positional template %q contains '@'", t.SQL)
 	}
-	k := 0
+	k, lit := 0, 0
 	for i := 0; i < len(t.SQL); i++ {
 		if t.SQL[i] != '?' {
 			continue
 		}
 		if k >= len(t.Slots) {
-			return fmt.Errorf("template %q has more '?' than arguments", t.SQL)
+			lit++ // after the last real placeholder: a '?' of a string literal
+			continue
 		}
 		if paren := i > 0 && t.SQL[i-1] == '('; paren != t.Slots[k].Paren {
 			return fmt.Errorf("template %q: placeholder %d paren flag %v does not match the text", t.SQL, k, t.Slots[k].Paren)
 		}
 		k++
 	}
-	if k != len(t.Slots) {
-		return fmt.Errorf("template %q has %d '?' for %d arguments", t.SQL, k, len(t.Slots))
+	if k != len(t.Slots) || lit != t.LitQ {
+		return fmt.Errorf("template %q has %d '?' (+%d literal) for %d arguments (+%d literal)", t.SQL, k, lit, len(t.Slots), t.LitQ)
 	}
 	return nil
 }
